@@ -34,12 +34,23 @@ def observe(case):
     except Exception as e:
         if case.get('must'):     # an input that is known to be a valid aromatic or Kekule spelling: failing to convert it is a violation
             empty = {'atoms': [], 'bonds': [], 'rings': []}
-            return {'exc': 'kekule:' + type(e).__name__, 'smi': case['smi'], 'k0': empty, 'a': empty, 'k1': empty, 'a2': empty, 'k2': empty, 'ar': empty, 'forms': [], 'back': []}
+            return {'exc': 'kekule:' + type(e).__name__, 'smi': case['smi'], 'th': -1, 'rdh': -1, 'k0': empty, 'a': empty, 'k1': empty, 'a2': empty, 'k2': empty, 'ar': empty, 'forms': [], 'back': []}
         return {'skip': type(e).__name__}
     if not any(b._order == 2 for *_, b in k0.bonds()):
         return {'skip': 'no-double-bond'}
     order = list(k0._atoms)
-    rec = {'exc': '', 'smi': case['smi']}
+    rec = {'exc': '', 'smi': case['smi'], 'th': -1, 'rdh': -1}
+    # the number of hydrogens an aromatic spelling denotes, by an independent reader of the text (a bare aromatic n carries none)
+    if any(ch in case['smi'] for ch in 'cnosp') and all(a._implicit_hydrogens is not None for a in k0._atoms.values()):
+        try:
+            from rdkit import Chem, RDLogger
+            RDLogger.DisableLog('rdApp.*')
+            rd = Chem.MolFromSmiles(case['smi'])
+            if rd is not None and not any(a.GetNumRadicalElectrons() for a in rd.GetAtoms()):
+                rec['rdh'] = sum(a.GetTotalNumHs() for a in rd.GetAtoms()) + sum(1 for a in rd.GetAtoms() if a.GetAtomicNum() == 1)
+                rec['th'] = sum(a._implicit_hydrogens for a in k0._atoms.values()) + sum(1 for a in k0._atoms.values() if a.atomic_number == 1)
+        except ImportError:
+            pass
     empty = {'atoms': [], 'bonds': [], 'rings': []}
     for f in ('k0', 'a', 'k1', 'a2', 'k2', 'ar'):
         rec[f] = empty
